@@ -44,6 +44,9 @@ def worker_env(spec, bdir, rundir, tag):
     env['PYTHONPATH'] = os.pathsep.join(
         [os.path.join(VERIF, 'vf', 'mpisim'), bdir, VERIF])
     env.setdefault('OMP_NUM_THREADS', '2')
+    # many worker processes x many OpenMP threads: do not spin-wait
+    env.setdefault('OMP_WAIT_POLICY', 'passive')
+    env.setdefault('GOMP_SPINCOUNT', '0')
     env['MPLBACKEND'] = 'Agg'
     env['VF_RUNDIR'] = rundir
     variant = spec.get('variant', 'plain')
